@@ -196,6 +196,13 @@ class Abs:
                 for i in range(len(lst)):
                     for j in range(i + 1, len(lst)):
                         out.append(z3.Implies(lst[i][0] == lst[j][0], lst[i][1] == lst[j][1]))
+                        # parity / reciprocity lemmas for arguments that are negatives of each other
+                        if op == "cos":
+                            out.append(z3.Implies(lst[i][0] == -lst[j][0], lst[i][1] == lst[j][1]))
+                        elif op == "sin":
+                            out.append(z3.Implies(lst[i][0] == -lst[j][0], lst[i][1] == -lst[j][1]))
+                        elif op == "exp":
+                            out.append(z3.Implies(lst[i][0] == -lst[j][0], lst[i][1] * lst[j][1] == 1))
         return out
 
     def sqrt_args(self, names=None):
